@@ -193,6 +193,30 @@ pub fn run() {
                 drop(tx1);
                 json!({"carrier": carrier, "before": s_before, "send": r.unwrap_or_else(|| "hang".into())})
             },
+            // the raw-bytes channel with an EMPTY payload: to a vanished receiver it fails like any other send; to a receiver in transit it
+            // succeeds and the empty message is there after unpacking
+            "bytes_empty" => {
+                use ipc_channel::ipc;
+                let (btx, brx) = ipc::bytes_channel().unwrap();
+                drop(brx);
+                let gone = match btx.send(&[]) { Ok(()) => "Ok".to_string(), Err(_) => "Err".to_string() };
+                let (ctx, crx) = ipc::channel::<ipc::IpcBytesReceiver>().unwrap();
+                let (btx2, brx2) = ipc::bytes_channel().unwrap();
+                ctx.send(brx2).unwrap();
+                let transit = match btx2.send(&[]) { Ok(()) => "Ok".to_string(), Err(_) => "Err".to_string() };
+                let _ = btx2.send(&[7, 7]);
+                let got: Vec<usize> = match crx.recv() {
+                    Ok(r) => {
+                        let mut v = Vec::new();
+                        while let Ok(d) = r.try_recv() {
+                            v.push(d.len());
+                        }
+                        v
+                    },
+                    Err(_) => vec![99],
+                };
+                json!({"send": gone, "transit": transit, "got": got})
+            },
             // channel A's receiver is gone; a message carrying channel B's RECEIVER is sent on A and refused: B's receiving end went
             // down with the message, so sends on B fail from then on (they must not succeed, and not block)
             "carrier_fail" => {
